@@ -76,6 +76,7 @@ type BuildOpt struct {
 	Options    bool // install the container's OPTIONSFilter
 	Dynamic    bool
 	Switched   bool // configure the other router first, then switch to Router (configuration history)
+	Reuse      bool // every route of a service after the first is declared by using the first route's RouteBuilder again (Method, Path, Consumes, Produces set anew, further If conditions added)
 	Longhand   bool // declare every route with Method(m).Path(p) instead of the per-method shortcuts (GET(p), HEAD(p), ...)
 	Nest       bool // route functions honour X-Nest: dispatch a nested GET to that path, then look at their own request again
 }
@@ -137,8 +138,18 @@ func Build(t rm.Table, o BuildOpt) (b *Built) {
 		if o.RouteOrder != nil && o.RouteOrder[si] != nil {
 			ro = o.RouteOrder[si]
 		}
+		var first *restful.RouteBuilder
+		firstIdx := 0
 		for _, ri := range ro {
-			rb := routeBuilder(ws, s.Routes[ri], lg, o.Longhand)
+			var rb *restful.RouteBuilder
+			if o.Reuse && first != nil {
+				rb = reuseBuilder(first, s.Routes[ri], len(s.Routes[firstIdx].If), lg)
+			} else {
+				rb = routeBuilder(ws, s.Routes[ri], lg, o.Longhand)
+				if first == nil {
+					first, firstIdx = rb, ri
+				}
+			}
 			if o.Nest {
 				nestable(rb, s.Routes[ri].ID, lg, b)
 			}
@@ -149,6 +160,32 @@ func Build(t rm.Table, o BuildOpt) (b *Built) {
 	}
 	b.C = c
 	return b
+}
+
+// reuseBuilder declares a further route with a builder that has already built one: method, path,
+// Consumes and Produces are set anew (the declaration must give both lists), conditions accumulate
+// on a builder, so only those beyond the first prevIf are added, and the function is replaced.
+func reuseBuilder(rb *restful.RouteBuilder, r rm.RouteDecl, prevIf int, lg *Log) *restful.RouteBuilder {
+	rb.Method(r.Method).Path(r.Sub).Consumes(r.Consumes...).Produces(r.Produces...)
+	id := r.ID
+	for ci := prevIf; ci < len(r.If); ci++ {
+		ci, cond := ci, r.If[ci]
+		rb.If(func(hr *http.Request) bool {
+			res := cond.Eval(hr.Header.Get("X-C"))
+			lg.Conds = append(lg.Conds, CondCall{id, ci, res})
+			return res
+		})
+	}
+	rb.To(func(req *restful.Request, resp *restful.Response) {
+		inv := Invocation{ID: id, SelPath: req.SelectedRoutePath(), Params: h.CopyMap(req.PathParameters())}
+		if sr := req.SelectedRoute(); sr != nil {
+			inv.SelMethod, inv.SelRPath = sr.Method(), sr.Path()
+		}
+		lg.Invoked = append(lg.Invoked, inv)
+		resp.Header().Set("X-Route", fmt.Sprint(id))
+		io.WriteString(resp, "ok")
+	})
+	return rb
 }
 
 // RouteBuilder turns a declaration into a RouteBuilder with a logging function and conditions.
